@@ -44,7 +44,8 @@ pub fn install() {
             a: ev.a,
             b: ev.b,
             c: ev.c,
-            data: ev.data.to_vec(),
+            // for a queued write buffer: where the deallocation log stood when it was queued
+            data: if ev.kind == "ubp" { (crate::freelog::mark() as u64).to_le_bytes().to_vec() } else { ev.data.to_vec() },
         };
         EVENTS.lock().unwrap_or_else(|e| e.into_inner()).push(raw);
     }));
